@@ -1,4 +1,43 @@
-From Coq Require Import ZArith.
-From Tulz Require Import ResourceModel.
-Theorem placeholder_C03 : 1 = 1. Proof. reflexivity. Qed.
-Print Assumptions placeholder_C03.
+(* Properties_C03.v — rwp::Resource: FIFO fairness, waiting requests are never overtaken.
+   Only statements, each closed by [exact <lemma of ResourceProofs>], and Print Assumptions. *)
+From Coq Require Import List ZArith Bool Lia.
+From Tulz Require Import Common ResourceModel ResourceInv ResourceLemmas ResourceOrder.
+Import ListNotations.
+Local Open Scope Z_scope.
+
+(* THE property, over the ghost history of every execution: whenever a request b is granted
+   (its lock*() returns), every request a that was already parked before b was issued and is
+   still ungranted is a read, b is a read, and no write request ever parked between them. *)
+Theorem C03_fifo : forall n ls, fifo_ok (hist (run true (init n) ls)).
+Proof. exact fifo_reachable. Qed.
+Print Assumptions C03_fifo.
+
+(* no barging: while the queue is non-empty or any writer waits (admitted or not), every new
+   request — read or write — parks behind it *)
+Theorem C03_no_barging : forall n ls t op s',
+  (queue (rs (run true (init n) ls)) <> [] \/
+   exists t' id nt a, nth_error (thr (run true (init n) ls)) t' = Some (Parked Wr id nt a)) ->
+  step true (run true (init n) ls) (Req t op) = Some s' ->
+  exists id a, nth_error (thr s') t = Some (Parked op id false a).
+Proof. exact no_barging. Qed.
+Print Assumptions C03_no_barging.
+
+(* parked requests keep their arrival order: tickets of parked threads are ordered like their
+   arrival numbers (so the queue is served in arrival order) *)
+Theorem C03_tickets_follow_arrival : forall n ls t1 t2 o1 o2 i1 i2 n1 n2 a1 a2,
+  nth_error (thr (run true (init n) ls)) t1 = Some (Parked o1 i1 n1 a1) ->
+  nth_error (thr (run true (init n) ls)) t2 = Some (Parked o2 i2 n2 a2) ->
+  ((a1 < a2)%nat <-> i1 < i2).
+Proof. exact tickets_follow_arrival. Qed.
+Print Assumptions C03_tickets_follow_arrival.
+
+(* The pinned upstream code violates it (after the counter reset writer 2 takes the fast path
+   while reader 1, parked long before, is still asleep). *)
+Theorem C03_upstream_refuted : exists ls, ~ fifo_ok (hist (run false (init 3) ls)).
+Proof. exact upstream_overtaking. Qed.
+Print Assumptions C03_upstream_refuted.
+
+Example C03_nonvacuous :
+  hist (run true (init 3) [Req 0 Wr; Req 1 Rd; Req 2 Wr; Rel 0; Notify 0; Wake 1])
+  = [HGrant 1 1; HPark 2 2; HIssue 2 2 Wr; HPark 1 1; HIssue 1 1 Rd; HGrant 0 0; HIssue 0 0 Wr].
+Proof. vm_compute. reflexivity. Qed.
